@@ -23,33 +23,6 @@ theorem beats_strict_total (a b c : Meta) :
     (a.ts < b.ts → beats a b = true) :=
   ⟨beats_irrefl a, beats_asymm, beats_trans, beats_total, fun h => by rw [beats_iff]; omega⟩
 
-private theorem eq_of_pairwise_uid {l : List Claim}
-    (hp : l.Pairwise (fun a b => a.md.uid ≠ b.md.uid)) {a b : Claim}
-    (ha : a ∈ l) (hb : b ∈ l) (he : a.md.uid = b.md.uid) : a = b := by
-  induction l with
-  | nil => cases ha
-  | cons x r ih =>
-    rw [List.pairwise_cons] at hp
-    rcases List.mem_cons.mp ha with rfl | ha' <;> rcases List.mem_cons.mp hb with rfl | hb'
-    · rfl
-    · exact absurd he (hp.1 b hb')
-    · exact absurd he.symm (hp.1 a ha')
-    · exact ih hp.2 ha' hb'
-
-/-- `Spec.champion` (the first claim that beats all claims with another UID) is the
-champion in the sense of the fold lemma. -/
-private theorem champion_spec {l : List Claim} {c : Claim} (h : Spec.champion l = some c) :
-    IsChampion Claim.md l c := by
-  unfold Spec.champion at h
-  have hm := List.mem_of_find?_eq_some h
-  have hp := List.find?_some h
-  refine ⟨hm, fun x hx hne => ?_⟩
-  have := (List.all_eq_true.mp hp) x hx
-  simp only [Bool.or_eq_true, decide_eq_true_eq] at this
-  rcases this with e | e
-  · exact absurd e hne
-  · exact e
-
 /-- **Ownership.** For every object set whose claimants are distinguishable, the host map
 built by `buildHostsAndResources` assigns each host to exactly `Spec.owner`: the
 claimant (Ingress rule host, VirtualServer host, passthrough TransportServer host)
@@ -59,47 +32,7 @@ theorem buildHosts_eq_spec (o : Objs) (hd : DistinctClaims o) (h : String) :
     (buildHosts o).holderKey h = Spec.owner o h := by
   unfold Build.holderKey Spec.owner
   rw [buildHosts_hosts, get?_fold_ostep]
-  have hd' := hd h
-  generalize (Spec.claims o).filter (fun c => c.host = h) = L at hd'
-  cases L with
-  | nil => simp [Map.get?, Spec.champion]
-  | cons x r =>
-    simp only [Map.get?, List.map_cons, List.foldl_cons, hstep]
-    have hpw : (pairOf x :: r.map pairOf).Pairwise (fun a b => (Prod.snd a).uid ≠ (Prod.snd b).uid) := by
-      have : ((x :: r).map pairOf).Pairwise (fun a b => (Prod.snd a).uid ≠ (Prod.snd b).uid) := by
-        rw [List.pairwise_map]; exact hd'
-      simpa using this
-    obtain ⟨c, hc, hmem, hbeat⟩ := fold_hstep_champion Prod.snd (pairOf x) (r.map pairOf) hpw
-    rw [hc]
-    -- c = pairOf c₀ for a claim c₀ of the list, and c₀ satisfies the Spec's champion test
-    have hmem' : c ∈ (x :: r).map pairOf := by simpa using hmem
-    obtain ⟨c0, hc0, rfl⟩ := List.mem_map.mp hmem'
-    have hP : ((x :: r).all fun c' => c'.md.uid = c0.md.uid || beats c0.md c'.md) = true := by
-      rw [List.all_eq_true]
-      intro y hy
-      by_cases e : y.md.uid = c0.md.uid
-      · simp [e]
-      · have := hbeat (pairOf y) (by simpa using List.mem_map_of_mem (f := pairOf) hy) (by simpa [pairOf] using e)
-        simp [pairOf] at this; simp [this]
-    -- so `find?` finds some champion c1, which must be c0
-    cases hf : Spec.champion (x :: r) with
-    | none =>
-      unfold Spec.champion at hf
-      have := List.find?_eq_none.mp hf c0 hc0
-      simp [hP] at this
-    | some c1 =>
-      have h1 := champion_spec hf
-      have h0 : IsChampion Claim.md (x :: r) c0 := by
-        refine ⟨hc0, fun y hy hne => ?_⟩
-        have := (List.all_eq_true.mp hP) y hy
-        simp only [Bool.or_eq_true, decide_eq_true_eq] at this
-        rcases this with e | e
-        · exact absurd e hne
-        · exact e
-      have hu := champion_unique Claim.md h1 h0
-      have : c1 = c0 := eq_of_pairwise_uid hd' h1.1 hc0 hu
-      subst this
-      simp [pairOf]
+  exact fold_eq_champion _ (hd h)
 
 /-- The owner is a claimant of the host and beats every other claimant of it. -/
 theorem owner_is_champion (o : Objs) (h k : String) (hk : Spec.owner o h = some k) :
